@@ -811,15 +811,17 @@ def precond_case(chk, cell, it, dk, mx, mn, ptol, lines, handlers, viol, dyn):
             return
         qin, Q, R = spy.calls[0]
         nbm = int(torch.Size(kb).numel())
-        members = range(nbm) if nbm <= 2 else sorted(rng.sample(range(nbm), 2))
+        members = [rng.randrange(nbm)] if chk.tier == "quick" or nbm > 2 else range(nbm)
+        if chk.tier != "quick" and rng.random() < 0.6:
+            members = []
         fm = lambda t: mat_line(frac_mat(t))
         for mi in members:
             Lm, Qm, Rm = flat_batch(Lp, 2)[mi], flat_batch(Q, 2)[mi], flat_batch(R, 2)[mi]
             dm = dvals.reshape(-1, n)[mi]
             kind = "const" if op._constant_diag else "nonconst"
             noise = fmt_rat(Fraction(float(dm[0]))) if kind == "const" else ",".join(fmt_rat(Fraction(float(v))) for v in dm)
-            lines.append(f"pre {kind} {noise} {fm(Lm)} {fm(Qm)} {fm(Rm)} {fm(X.reshape(-1, n, 2)[mi])}")
-            want = {"qrin": flat_batch(qin, 2)[mi], "q": flat_batch(op._q_cache, 2)[mi], "closure": flat_batch(cx, 2)[mi],
+            lines.append(f"pre {kind} {noise} {fm(Lm)} {fm(Qm)} {fm(Rm)} {fm(X.reshape(-1, n, 2)[mi][:, :1])}")
+            want = {"qrin": flat_batch(qin, 2)[mi], "q": flat_batch(op._q_cache, 2)[mi], "closure": flat_batch(cx, 2)[mi][:, :1],
                     "logdet": logdet.reshape(-1)[mi].reshape(1, 1), "lt": flat_batch(ltd, 2)[mi]}
 
             def h(o, want=want):
